@@ -122,6 +122,15 @@ def cases(tier):
     C("nest/let-in-if", lambda a, b, c: E(S("if"), a, E(S("let"), List([S("x"), b]), S("x")), c), 3, B, kind="arity_bounded")
     C("nest/if-in-while-body", lambda c, a, b, d: E(S("while"), c, E(S("if"), a, b, d)), 4, ("E", "SE"), ctxkw=LOOP, kind="arity_bounded")
     C("nest/cond-in-do", lambda a, b, c: E(S("do"), a, E(S("cond"), b, c)), 3, B, kind="arity_bounded")
+    # a form that compiles to nothing (an empty `do`, `(eval-and-compile)`, a pragma) has the value None: as the last form of a body it
+    # replaces the value of the form before it
+    Z = ("E", "SE", "0")
+    C("do/2-with-empty-forms", lambda a, b: E(S("do"), a, b), 2, Z, kind="arity_bounded")
+    C("do/3-with-empty-forms", lambda a, b, c: E(S("do"), a, b, c), 3, Z, kind="arity_bounded")
+    C("do/value-then-real-empty-do", lambda a: E(S("do"), a, E(S("do"))), 1, ("E", "SE"))
+    C("fn/body-ending-in-empty-form", lambda a, b: E(E(S("fn"), List([]), a, b)), 2, [("E", "SE"), ("0",)], fn=RM + "compile_function_lambda")
+    C("when/body-ending-in-empty-form", lambda c, a, b: E(S("when"), c, a, b), 3, [("E",), ("E", "SE"), ("0",)])
+    C("let/body-ending-in-empty-form", lambda v, a, b: E(S("let"), List([S("x"), v]), a, b), 3, [("E",), ("E", "SE"), ("0",)])
     # two statement-valued ifs whose values are alive at the same time, inside each position of an if / cond chain (a rule that shares
     # one result variable down a chain must not hand it to unrelated ifs compiled in the chain's tests and bodies)
     two = lambda p, x, q, y: E(S("+"), E(S("if"), p, x, Integer(2)), E(S("if"), q, y, Integer(20)))
